@@ -22,7 +22,7 @@ func init() {
 }
 
 func checkC15(c *Ctx) {
-	r151(c)
+	r151(c, "R15.1 proxy-configuration")
 	r152(c, "R15.2 error-classification")
 	r153(c)
 	r154(c, "R15.4 failed-request-leaves-nothing-behind")
@@ -36,8 +36,7 @@ func checkC15(c *Ctx) {
 	persistedFields(c, "R15.6 target-settings-survive-restart", "TargetOptions", nil)
 }
 
-func r151(c *Ctx) {
-	const rule = "R15.1 proxy-configuration"
+func r151(c *Ctx, rule string) {
 	c.floor(rule, 4)
 	cph := c.method("Target", "createProxyHandler")
 	hpe := c.method("Target", "handleProxyError")
